@@ -5,14 +5,20 @@
 (* NonPosIgnored on the model and emits every (history, observed call, stream term) as a     *)
 (* replay script: scripts whose stream terms are equal must give bit-identical outputs on    *)
 (* the real library, seeded calls with different seeds different outputs.                    *)
-EXTENDS SimSeed, Json
+EXTENDS SimSeed, Json, SequencesExt
 
 ASSUME Distinct /\ DistinctRanks
 
 NonPosSet == {0, -5}
 
-(* histories of length 3 (thorough tier) are replayed for the seeded observed calls with the first seed *)
-Emit == (done' /\ ~done /\ (Len(hist) < 3 \/ (Seeded(out'.call) /\ out'.call.seed = OneSeed))) =>
+(* histories of length 3 (thorough tier): each is replayed before ONE seeded observed call, chosen   *)
+(* by a fixed rotation over the seeded observed calls (every history of length <= 2 is replayed     *)
+(* before every observed call)                                                                      *)
+HistSeq == SetToSeq(HistCalls)
+ObsSeq  == SetToSeq({c \in ObsCalls : Seeded(c) /\ c.seed = OneSeed})
+Code(c) == CHOOSE i \in DOMAIN HistSeq : HistSeq[i] = c
+Pick(h) == ((Code(h[1]) + 2 * Code(h[2]) + 3 * Code(h[3])) % Len(ObsSeq)) + 1
+Emit == (done' /\ ~done /\ (Len(hist) < 3 \/ out'.call = ObsSeq[Pick(hist)])) =>
           PrintT(ToJson([hist |-> hist, call |-> out'.call, stream |-> out'.stream, stage2 |-> out'.stage2,
                          seeded |-> Seeded(out'.call), fresh |-> (out'.stream = Fresh(out'.call))]))
 =============================================================================
